@@ -23,7 +23,11 @@ CONSTANTS MaxImports,     \* 0..3: base family (imports of A, B, C; exporters A 
           ExtMaxFull,     \* documents of up to this many imports get every `;`/comment/blank choice
           ExtMaxLite,     \* longer ones, up to this many imports: `;` x LiteCmts, no blank line
           LiteCmts,       \* subset of CommentKinds
-          ExtLayouts      \* subset of Layouts
+          ExtLayouts,     \* subset of Layouts
+          \* bound family: exactly one import names K from a module that exports it (at any position among
+          \* the imports); two or three live modules export a class of that name
+          BoundMax,       \* documents of up to this many imports (`;` x LiteCmts, no blank line)
+          BoundLayouts    \* subset of Layouts
 
 VARIABLE st
 \* [lvl |-> "root" | "shape" | "doc", fam |-> "base" | "ext", keys |-> Seq(import key),
@@ -39,6 +43,10 @@ BaseSeqs == UNION {{s \in DistinctSeqs(BaseKeys, n) : NoRepeat(s)} : n \in 0..Ma
 ExtSeqs  == UNION {{s \in DistinctSeqs(BaseKeys \cup ExtKeys, n) :
                       NoRepeat(s) /\ \E i \in 1..n : s[i] \in ExtKeys} : n \in 1..ExtMaxLite}
 
+BoundSeqs == UNION {{s \in DistinctSeqs(BaseKeys \cup BoundKeys, n) :
+                      NoRepeat(s) /\ Cardinality({i \in 1..n : s[i] \in BoundKeys}) = 1} : n \in 1..BoundMax}
+BoundExporters == {<<"A", "E">>, <<"A", "E", "Lib.Exp">>}
+
 Attrs     == [semi : BOOLEAN, cmt : CommentKinds, blank : BOOLEAN]
 LiteAttrs == [semi : BOOLEAN, cmt : LiteCmts, blank : {FALSE}]
 BaseExporters == {e \in ExporterChoices : (e = <<"A">> /\ 1 \in NExporters) \/ (e = <<"A", "E">> /\ 2 \in NExporters)}
@@ -53,8 +61,10 @@ Next ==
                st' = [lvl |-> "shape", fam |-> "base", keys |-> ks, imps |-> <<>>, exps |-> ex, layout |-> lay]
         \/ \E ks \in ExtSeqs, ex \in ExtExporters, lay \in ExtLayouts :
                st' = [lvl |-> "shape", fam |-> "ext", keys |-> ks, imps |-> <<>>, exps |-> ex, layout |-> lay]
+        \/ \E ks \in BoundSeqs, ex \in BoundExporters, lay \in BoundLayouts :
+               st' = [lvl |-> "shape", fam |-> "bound", keys |-> ks, imps |-> <<>>, exps |-> ex, layout |-> lay]
   \/ /\ st.lvl = "shape"
-     /\ \E as \in [1..Len(st.keys) -> (IF st.fam = "ext" /\ Len(st.keys) > ExtMaxFull THEN LiteAttrs ELSE Attrs)] :
+     /\ \E as \in [1..Len(st.keys) -> (IF (st.fam = "ext" /\ Len(st.keys) > ExtMaxFull) \/ st.fam = "bound" THEN LiteAttrs ELSE Attrs)] :
           st' = [st EXCEPT !.lvl = "doc",
                            !.imps = [i \in 1..Len(st.keys) |->
                                        ImportEntry(st.keys[i], as[i].semi, as[i].cmt, as[i].blank)]]
@@ -87,7 +97,10 @@ GlueOk(v) ==
       before == Before(Text[e.sl + 1], e.sc)
   IN Len(st.imps) = 0 \/ (before # "" /\ SubSeq(before, Len(before), Len(before)) \in {";", "/"})
 GlueFixGoodIffSeparated ==
-  IsDoc => \A m \in ToSet(st.exps), v \in {"glue", "glue-extent"} : Good(Text, Fix(Text, m, K, v), m, K) <=> GlueOk(v)
+  \* (for a class the document imports from m already, an insertion that has no effect is "good" as well:
+  \* the equivalence speaks of imports that are new)
+  IsDoc => \A m \in ToSet(st.exps), v \in {"glue", "glue-extent"} :
+             <<m, K>> \notin Table(st.imps) => (Good(Text, Fix(Text, m, K, v), m, K) <=> GlueOk(v))
 \* ... which needs the `;` unless a block comment follows
 GlueOkNeedsSemicolon ==
   IsDoc => /\ LastHasSemi <=> GlueOk("glue")
@@ -111,9 +124,14 @@ ApplySane ==
               /\ ~WellFormed(T, <<[e0 EXCEPT !.ec = Len(T[1]) + 1]>>)
               /\ (Len(T[1]) > 1 => ~WellFormed(T, <<[e0 EXCEPT !.ec = 2], [e0 EXCEPT !.sc = 1, !.ec = 1]>>))
 
-Mods == {ModOf(k) : k \in (IF st.fam = "base" THEN BaseKeys ELSE BaseKeys \cup ExtKeys)} \cup ToSet(st.exps)
+Mods == {ModOf(k) : k \in (IF st.fam = "ext" THEN BaseKeys \cup ExtKeys ELSE BaseKeys)} \cup ToSet(st.exps)
+\* the module K is bound to in the document before any edit ("" when it is not bound): the last import that
+\* names it from a module that exports it, else the document itself when it declares the class
+BoundTo ==
+  LET is == {i \in 1..Len(st.imps) : K \in ToSet(st.imps[i].names) /\ st.imps[i].mod \in ToSet(st.exps)}
+  IN IF is # {} THEN st.imps[Max(is)].mod ELSE IF st.layout = "local" THEN "Doc" ELSE ""
 \* K is already named in an import of the document (of a module that does not export it)
-AlreadyNamed == \E i \in 1..Len(st.imps) : K \in ToSet(st.imps[i].names)
+AlreadyNamed == \E i \in 1..Len(st.imps) : K \in ToSet(st.imps[i].names) /\ st.imps[i].mod \notin ToSet(st.exps)
 Dotted(m) == \E j \in 1..Len(m) : SubSeq(m, j, j) = "."
 Case ==
   [doc |-> [imports |-> st.imps, layout |-> st.layout, fam |-> st.fam, keys |-> st.keys],
@@ -123,6 +141,7 @@ Case ==
    mods |-> [m \in Mods |-> ModuleText(m, st.exps)],
    last_semi |-> LastHasSemi,
    already_named |-> AlreadyNamed,
+   bound_to |-> BoundTo,
    last_dotted |-> Len(st.imps) > 0 /\ Dotted(st.imps[Len(st.imps)].mod),
    pred_glue_ok |-> GlueOk("glue")]
 
